@@ -10,7 +10,7 @@ PID = "C01"
 # feature flags closed by still-present known findings are added at run time (ctx.closed)
 BASE_CFG = {"engines": ("pandas", "sqlite"), "max_nodes": 7, "n_tables": (1, 2), "final_order": 0.3,
             "shape": "diamond", "shape_prob": 0.3, "reuse_bias": True, "extend_then_ordered_window_prob": 0.15, "block_table_prob": 0.1,
-            "extend_then_partition_window_prob": 0.1, "concat_with_source_prob": 0.12}
+            "extend_then_partition_window_prob": 0.1, "concat_with_source_prob": 0.12, "drop_order_col_prob": 0.4}
 
 
 def final_order_cols(case):
